@@ -994,6 +994,8 @@ class Lower:
         self.byref_hole = None                  # register of `hole.position` of a `&mut Hole` parameter
         self.other_reg = None                   # value register of an `other: &mut Self` parameter
         self.ret_kind = None
+        self.hole_created = False
+        self.unwind_code = []                   # `Drop` code of the guards this frame owns (run on unwinding)
 
     # ---- bookkeeping
     def site(self, kind):
@@ -1515,7 +1517,9 @@ class Lower:
                 v = self.fresh("ret", "N")
                 pre = [("setN", v, x)]
                 for h in self.live_holes:
-                    pre += self.inline_hole_method(h, "drop", [], "stmt")
+                    d = self.inline_hole_method(h, "drop", [], "stmt")
+                    pre += d
+                    self.unwind_code += d        # the same `Drop for Hole` runs when a panic unwinds this frame
                 x = ("var", v)
             return pre + [("retN", x)]
         if tail_ret == "P":
@@ -1956,6 +1960,7 @@ class Lower:
             if len(self.scopes) != 2:
                 raise Unparsed("a hole that is not declared at the top level of the function")
             self.live_holes.append(h)
+            self.hole_created = True
             return code
         if declare and es[0] == "mcall" and self.place(es[1]) == "STORE" and es[2] in STORE_CALLS \
                 and RET_KIND.get(STORE_CALLS[es[2]]) == "E":
@@ -2505,7 +2510,24 @@ def lower_function(fnid, file, rust, owner, sites, sources, selector=None):
         body = body + [("retN", ("var", lw.byref_hole))]
     if lw.site_i != len(sites):
         raise Unparsed("fewer fault-carrying accesses (%d) than the site table of %s lists (%d)" % (lw.site_i, fnid, len(sites)))
-    return {"nparams": nparams, "pparams": pparams, "vparams": vparams, "body": body, "loops": lw.loops, "vars": lw.vars}
+    if lw.live_holes:
+        # the guard is modelled as armed for the whole frame: nothing that can panic (a comparison, a call, a loop) may
+        # precede the creation of the hole
+        hole_regs = [f[1] for h in lw.live_holes for f in h[1].values() if f[0] == "N"]
+        first = next((i for i, st in enumerate(body) if st[0] == "setN" and st[1] in hole_regs), None)
+
+        def has_panic(x):
+            if isinstance(x, tuple):
+                return (len(x) > 0 and x[0] in ("ltP", "gtP", "pcall", "call", "callN", "callX", "callV", "whileRef",
+                                                "firstMinBy", "lastMaxBy", "lastMaxByPos", "prioMapOrGt", "prioMapOrLt",
+                                                "optCallN", "forEntries", "forRev")) or any(has_panic(y) for y in x)
+            if isinstance(x, list):
+                return any(has_panic(y) for y in x)
+            return False
+        if first is None or has_panic(body[:first]):
+            raise Unparsed("something that can panic precedes the creation of the hole")
+    return {"nparams": nparams, "pparams": pparams, "vparams": vparams, "body": body, "loops": lw.loops, "vars": lw.vars,
+            "unwind": lw.unwind_code, "byref": lw.byref_hole is not None}
 
 
 # ----------------------------------------------------------------------------------------------------
@@ -2695,6 +2717,21 @@ def emit(results, unparsed):
             L.append("/-- `%s`: %s -/" % (fnid, why.replace("-/", "- /")))
             L.append("def %s : Option Fn := none" % fnid)
         L.append("")
+    L.append("/-! what runs when a panic unwinds through a frame (`Drop for Hole` of the guard the frame owns), and whether the")
+    L.append("    function received its hole by `&mut` (then its current `hole.position` goes back to the owner): see")
+    L.append("    `PQ/Model/SrcF.lean` -/")
+    for fnid in ALL_FNIDS:
+        if fnid in results and results[fnid].get("unwind"):
+            L.append("def %s_unwind : Stmt :=\n%s" % (fnid, pstmts(results[fnid]["unwind"], 2)))
+            L.append("")
+    L.append("def unwind : FnId → Stmt × Bool")
+    for fnid in ALL_FNIDS:
+        if fnid in results and results[fnid].get("unwind"):
+            L.append("  | .%s => (%s_unwind, false)" % (fnid, fnid))
+        elif fnid in results and results[fnid].get("byref"):
+            L.append("  | .%s => (.skip, true)" % fnid)
+    L.append("  | _ => (.skip, false)")
+    L.append("")
     L.append("def prog : Prog")
     for fnid in ALL_FNIDS:
         L.append("  | .%s => %s" % (fnid, fnid))
